@@ -692,10 +692,11 @@ pub fn check(ctx: &mut Ctx) {
 	ctx.run_sub(&DroppedWithFullQueue);
 	ctx.run_sub(&PositionalMethodNotification);
 	ctx.run_sub(&StalledSend);
+	ctx.run_sub(&IdReusedAfterUnsubscribe);
 }
 
 pub fn replay(file: &serde_json::Value) -> Option<i32> {
-	replay_with(&Streams, file, "C05").or_else(|| replay_with(&DroppedWithFullQueue, file, "C05")).or_else(|| replay_with(&PositionalMethodNotification, file, "C05")).or_else(|| replay_with(&StalledSend, file, "C05"))
+	replay_with(&Streams, file, "C05").or_else(|| replay_with(&DroppedWithFullQueue, file, "C05")).or_else(|| replay_with(&PositionalMethodNotification, file, "C05")).or_else(|| replay_with(&StalledSend, file, "C05")).or_else(|| replay_with(&IdReusedAfterUnsubscribe, file, "C05"))
 }
 
 // ---------------------------------------------------------------------------------------------
@@ -927,5 +928,120 @@ impl SubCheck for StalledSend {
 				obs.fail(s, d);
 			}
 		}
+	}
+}
+
+// ---------------------------------------------------------------------------------------------
+// the server gives a freed subscription id to a subscribe call that was in flight during the unsubscribe
+// ---------------------------------------------------------------------------------------------
+
+#[derive(Clone, Debug, Serialize, Deserialize)]
+pub struct ReuseCase {
+	pub id_kind: IdK,
+	pub string_sub_id: bool,
+	/// the write of the unsubscribe request completes late (its bytes are out, `send` has not returned)
+	pub slow_write: bool,
+	/// how the first stream is given up: 0 = unsubscribe(), 1 = unsubscribe() then nothing else, 2 = dropped
+	pub how: u8,
+}
+
+pub struct IdReusedAfterUnsubscribe;
+
+impl SubCheck for IdReusedAfterUnsubscribe {
+	type Case = ReuseCase;
+	fn name(&self) -> &'static str {
+		"subscription-id-reused-after-unsubscribe"
+	}
+	fn cases(&self, tier: Tier) -> u32 {
+		tier.pick(600, 6_000)
+	}
+	fn strategy(&self, _tier: Tier) -> BoxedStrategy<ReuseCase> {
+		(prop_oneof![Just(IdK::Number), Just(IdK::String)], any::<bool>(), any::<bool>(), 0u8..3).prop_map(|(id_kind, string_sub_id, slow_write, how)| ReuseCase { id_kind, string_sub_id, slow_write, how }).boxed()
+	}
+	fn run(&self, case: &ReuseCase, obs: &mut Obs) {
+		let rt = rt();
+		rt.block_on(async {
+			let mc = MockClient::new(ClientCfg { id_kind: case.id_kind, ..ClientCfg::default() });
+			let desc = || format!("case={case:?} wire={:?} events={:?}", mc.wire_all(), mc.shared.events.lock());
+			let sid = if case.string_sub_id { json!("feed") } else { json!(77) };
+			let item = |n: u32| json!({"jsonrpc":"2.0","method":"feed","params":{"subscription":sid,"result":{"n": n}}}).to_string();
+			// subscription A gets the id
+			let c = mc.client.clone();
+			let ta = tokio::spawn(async move { c.subscribe::<Value, _>("sub_first", rpc_params![], "unsub").await });
+			settle().await;
+			let Some(id_a) = wire_id_of(&mc.wire_all(), "sub_first") else {
+				obs.fail("c05/subscribe-not-sent", desc());
+				return;
+			};
+			mc.push_text(json!({"jsonrpc":"2.0","id":id_a,"result":sid}).to_string());
+			settle().await;
+			let Some(Ok(Ok(a))) = ta.now_or_never() else {
+				obs.fail("c05/subscribe-failed", desc());
+				return;
+			};
+			// subscribe call B is on its way
+			let c = mc.client.clone();
+			let tb = tokio::spawn(async move { c.subscribe::<Value, _>("sub_second", rpc_params![], "unsub").await });
+			settle().await;
+			let Some(id_b) = wire_id_of(&mc.wire_all(), "sub_second") else {
+				obs.fail("c05/subscribe-not-sent", desc());
+				return;
+			};
+			// A is given up
+			if case.slow_write {
+				mc.shared.send_plans.lock().push_back(SendPlan::WireThenGate("w".into()));
+			}
+			match case.how % 3 {
+				2 => drop(a),
+				_ => {
+					let t = tokio::spawn(async move { a.unsubscribe().await });
+					settle().await;
+					obs.check(t.is_finished(), "c05/unsubscribe-did-not-return", || desc());
+				}
+			}
+			settle().await;
+			// the server acknowledges the unsubscribe request and hands the freed id to B
+			let wire = mc.wire_all();
+			let unsub_ids: Vec<Value> = wire.iter().filter(|m| m["method"] == json!("unsub")).map(|m| m["id"].clone()).collect();
+			obs.check(unsub_ids.len() == 1, "c05/unsubscribe-request-count", || format!("{} unsubscribe requests after the first stream was given up; {}", unsub_ids.len(), desc()));
+			for u in &unsub_ids {
+				mc.push_text(json!({"jsonrpc":"2.0","id":u,"result":true}).to_string());
+			}
+			settle().await;
+			mc.push_text(json!({"jsonrpc":"2.0","id":id_b,"result":sid}).to_string());
+			settle().await;
+			let mut b = match tb.now_or_never() {
+				Some(Ok(Ok(s))) => s,
+				other => {
+					obs.fail("c05/subscribe-failed", format!("the second subscription: {:?}; {}", other.map(|r| r.map(|r| r.map(|_| ()))), desc()));
+					return;
+				}
+			};
+			mc.push_text(item(1));
+			settle().await;
+			// whatever the background tasks still had queued from the first subscription is worked off now
+			mc.shared.gates.open("w");
+			settle().await;
+			mc.push_text(item(2));
+			settle().await;
+			let mut got = vec![];
+			let mut ended = false;
+			loop {
+				match b.next().now_or_never() {
+					Some(Some(Ok(v))) => got.push(v),
+					Some(None) => {
+						ended = true;
+						break;
+					}
+					_ => break,
+				}
+			}
+			obs.check(got == vec![json!({"n": 1}), json!({"n": 2})] && !ended, "c05/stream-lost-items", || format!("the second subscription was sent n=1 and n=2 under the reused id; its stream gave {got:?}, ended={ended}; {}", desc()));
+			let unsubs = mc.wire_all().iter().filter(|m| m["method"] == json!("unsub")).count();
+			obs.check(unsubs == 1, "c05/unsubscribe-request-count", || format!("{unsubs} unsubscribe requests on the wire, one subscription was given up; {}", desc()));
+			obs.check(mc.client.is_connected(), "c05/client-disconnected", || desc());
+			obs.nontrivial();
+			obs.class(if case.slow_write { "reuse:unsubscribe-write-completes-late" } else { "reuse:plain" });
+		});
 	}
 }
